@@ -40,7 +40,7 @@ P = {
          "Integer seconds reach a Duration through integer arithmetic only (no detour through float64, which would round above 2^53). "
          "reifyDuration classifies what a reference evaluates to, not the reference node, so a number behind a reference means seconds like one written in place (R03f). "
          "The numbers parse.Value finds in the text of a value (what a resolver, a default or a splice expands to) are result #0 of strconv.ParseUint/ParseInt/ParseFloat: no hand-written digit arithmetic with an overflow behaviour of its own (R03g). "
-         "Thorough tier repeats the rules for GOARCH=386. Two known findings (reflect fall-through for unsupported kinds; int(idx) on 32-bit). "
+         "Thorough tier repeats the rules for GOARCH=386. Each numeric reflect kind, uintptr included, is accepted by exactly one of the kind predicates doReifyPrimitive dispatches on, so no numeric target reaches its unchecked fall-through conversion (R03h). One known finding (int(idx) on 32-bit platforms). "
          "That an in-range number is stored exactly, and strconv/time parsing, are not decided.",
          TRUST + "strconv and time.ParseDuration trusted.",
          "§3 C03"),
